@@ -4,7 +4,7 @@
    Only statements, each closed by [exact], and their assumptions.  Models: Model/Results.v
    (Workceptor.GetResults after "fix: work results of a cancelled unit end"), Model/Mirror.v
    (monitorRemoteStatus / monitorRemoteStdout), tied to the code by `./check C05`. *)
-From Receptor Require Import Model.Results Model.Mirror Proofs.Results Proofs.Mirror.
+From Receptor Require Import Model.Results Model.Writer Model.Mirror Proofs.Results Proofs.Writer Proofs.Mirror.
 Open Scope N_scope.
 
 (* For EVERY trace — every output, chunking and timing of the producer, every start offset, every
@@ -220,3 +220,104 @@ Example C05_nonvacuous_mirror :
   m_local (mrun (mirror_example ++ settle 10)) = [1; 2; 3; 4; 5; 6] /\
   m_mode (mrun (mirror_example ++ settle 10)) = MStopped.
 Proof. exact mirror_example_ok. Qed.
+
+(* ---------- the in-process producer (STDoutWriter, stdio_utils.go) ----------
+   For work types whose output is written by the daemon itself the producer's contract is not a
+   hypothesis: for EVERY history of writes — any sizes, the file accepting any part of each write,
+   with or without an error, the status save failing or not — Size() is the length of the file and
+   the recorded size is never ahead of it ... *)
+Theorem C05_writer_size_is_file_length : forall ops,
+  ws_written (wrun ops) = rlen (ws_file (wrun ops)) /\
+  ws_recorded (wrun ops) <= rlen (ws_file (wrun ops)).
+Proof. exact writer_inv_thm. Qed.
+Print Assumptions C05_writer_size_is_file_length.
+
+(* ... one Write appends exactly the prefix it reports as written and nothing else ... *)
+Theorem C05_writer_write_exact : forall s p a e sv,
+  let '(s', (n, _)) := w_write false s p a e sv in
+  n <= rlen p /\ ws_file s' = ws_file s ++ firstn (N.to_nat n) p /\
+  ws_written s' = ws_written s + n /\ ws_state s' = ws_state s.
+Proof. exact writer_write_thm. Qed.
+Print Assumptions C05_writer_write_exact.
+
+(* ... and a caller that records its finishing status last generates a trace that satisfies the
+   producer's contract ... *)
+Theorem C05_writer_keeps_contract : forall ops,
+  disciplined ops = true -> contract (wtrace ops) = true.
+Proof. exact writer_contract_thm. Qed.
+Print Assumptions C05_writer_keeps_contract.
+
+(* ... so that, with the reader's polls placed anywhere between the producer's actions, the
+   results are a prefix of the file from the start offset and, once ended, exactly that — ended
+   only after the finishing status ... *)
+Theorem C05_writer_results_exact : forall ops start tr,
+  disciplined ops = true -> env_only tr = wtrace ops ->
+  let '(cs, fin) := results_run start tr in
+  is_prefix (concat cs) (skipn (N.to_nat start) (ws_file (wrun ops))) = true /\
+  (fin = true ->
+   concat cs = skipn (N.to_nat start) (ws_file (wrun ops)) /\
+   results_done (ws_state (wrun ops)) = true).
+Proof. exact writer_results_exact_thm. Qed.
+Print Assumptions C05_writer_results_exact.
+
+(* ... and they do end *)
+Theorem C05_writer_results_terminate : forall ops start polls,
+  disciplined ops = true -> results_done (ws_state (wrun ops)) = true ->
+  (length (ws_file (wrun ops)) + 4 <= length polls)%nat ->
+  snd (results_run start (wtrace ops ++ map EPoll polls)) = true.
+Proof. exact writer_results_terminate_thm. Qed.
+Print Assumptions C05_writer_results_terminate.
+
+(* A writer that adds what it was ASKED to write instead of what the file accepted: after one
+   short write the record is ahead of the output for good, the contract is broken and the results
+   of the finished unit never end. *)
+Theorem C05_writer_count_asked_refuted :
+  disciplined asked_witness = true /\
+  ws_recorded (wrun asked_witness) = 1 /\ ws_file (wrun asked_witness) = [1] /\
+  results_run 0 (wtrace asked_witness ++ repeat (EPoll 65536) 5) = ([[1]], true) /\
+  world_after (wtrace_asked asked_witness) = mkWorld (Some [1]) ST_SUCCEEDED 3 /\
+  contract (wtrace_asked asked_witness) = false /\
+  (forall polls, snd (results_run 0 (wtrace_asked asked_witness ++ map EPoll polls)) = false).
+Proof. exact writer_count_asked_refuted_thm. Qed.
+Print Assumptions C05_writer_count_asked_refuted.
+
+(* ---------- the command runner as a producer (command.go) ----------
+   The child writes the file, the runner records (Running, size now) at its ticks — a tick's save
+   may fail — and one finishing status with the size as it is after the child has been waited for.
+   For EVERY such history the producer's contract holds ... *)
+Theorem C05_runner_keeps_contract : forall ops,
+  exits_last ops = true -> contract (rtrace ops) = true.
+Proof. exact runner_contract_thm. Qed.
+Print Assumptions C05_runner_keeps_contract.
+
+(* ... so the results of a command unit, with the reader's polls anywhere between the child's
+   writes and the runner's ticks, are exact and end only after the recorded exit *)
+Theorem C05_runner_results_exact : forall ops start tr,
+  exits_last ops = true -> env_only tr = rtrace ops ->
+  let '(cs, fin) := results_run start tr in
+  is_prefix (concat cs) (skipn (N.to_nat start) (rs_file (rrun ops))) = true /\
+  (fin = true ->
+   concat cs = skipn (N.to_nat start) (rs_file (rrun ops)) /\
+   results_done (rs_state (rrun ops)) = true).
+Proof. exact runner_results_exact_thm. Qed.
+Print Assumptions C05_runner_results_exact.
+
+Example C05_nonvacuous_runner :
+  exits_last runner_example = true /\
+  rtrace runner_example =
+    [ECreate; ESetStatus ST_RUNNING 0; EAppend [1; 2]; EAppend [3]; ESetStatus ST_RUNNING 3;
+     EAppend [4; 5]; ESetStatus ST_FAILED 5] /\
+  results_run 1 (rtrace runner_example ++ repeat (EPoll 2) 7) = ([[2; 3]; [4; 5]], true).
+Proof. exact runner_example_ok. Qed.
+
+(* short writes, errors with and without progress, a failing save, a finishing status: the
+   hypotheses are met by such a history, read from offset 2 in reads of 3 bytes *)
+Example C05_nonvacuous_writer :
+  disciplined writer_example = true /\
+  ws_file (wrun writer_example) = [1; 2; 3; 4; 5; 6; 7; 8] /\
+  ws_recorded (wrun writer_example) = 8 /\
+  fst (wobs_run wstate0 writer_example) =
+    [mkObs 3 false 3 3 0; mkObs 2 true 5 5 0; mkObs 0 true 5 5 0; mkObs 2 true 7 5 0;
+     mkObs 0 false 7 7 1; mkObs 1 false 8 8 1; mkObs 0 false 8 8 2] /\
+  results_run 2 (wtrace writer_example ++ repeat (EPoll 3) 8) = ([[3; 4; 5]; [6; 7; 8]], true).
+Proof. exact writer_example_ok. Qed.
